@@ -507,6 +507,36 @@ edit(rw,[('''		ew, ok := w.(EnterExitWalker)
 			}
 ''')])
 save('benign-walkbalance-hoist','C07',rw,'the EnterExitWalker assertion of walkSlice hoisted out of the loop, the embedded-field branch of walkStruct rewritten with the inverse condition')
+m('setuptoxic-gamma-copy','C01',['SETUP-TOXIC'],'backend/groth16/bls12-381/setup.go','''	for res.gamma.IsZero() {
+		if _, err := res.gamma.SetRandom(); err != nil {
+			return res, err
+		}
+	}
+''','''	res.gamma.Square(&res.delta)
+''',note='gamma derived from delta instead of drawn: the verifying key still works, the trapdoor relation gamma = delta^2 is public')
+m('setuptoxic-unchecked','C01',['SETUP-TOXIC'],'backend/groth16/bw6-761/setup.go','''	for res.alpha.IsZero() {
+		if _, err := res.alpha.SetRandom(); err != nil {
+			return res, err
+		}
+	}
+''','''	res.alpha.SetRandom()
+''',note='error of the alpha draw ignored')
+edit('backend/groth16/bn254/setup.go',[('''	for res.beta.IsZero() {
+		if _, err := res.beta.SetRandom(); err != nil {
+			return res, err
+		}
+	}
+''','''	for {
+		_, err := res.beta.SetRandom()
+		if err != nil {
+			return res, err
+		}
+		if !res.beta.IsZero() {
+			break
+		}
+	}
+''')])
+save('benign-setuptoxic-loop','C01','backend/groth16/bn254/setup.go','the beta draw loop rewritten as draw-then-test')
 json.dump({'comment':'selftest mutants: each patch breaks one rule instance and must be detected by the listed rule(s) of its property; produced by tools/make_selftest.py','mutants':M}, open(os.path.join(root,'selftest','mutants.json'),'w'), indent=1)
 subprocess.run(['git','-C','/repo','worktree','remove','--force',WT],capture_output=True)
 print(len(M),'mutants')
